@@ -294,6 +294,10 @@ func (g *Gen) Step() bool {
 	peer := g.peerName(g.R.Intn(g.Opt.Peers))
 	live := g.liveSessions()
 
+	if g.R.Intn(25) == 0 { // sequence-number boundaries: 2^24-1, then the wrap to 0 and 1
+		w.Peer(peer).SetSeq([]uint32{0xFFFFFD, 0xFFFFFE, 0x7FFFFF, 0}[g.R.Intn(4)])
+	}
+
 	if !g.assoc[peer] {
 		if g.Opt.Rejects && g.R.Intn(4) == 0 {
 			// establishment without association: must be rejected and write nothing
